@@ -103,6 +103,13 @@ def gen_case(rng, tier, kind=None):
         if rng.random() < 0.06:  # integer-valued (still valid) training data
             X = np.round(X / (np.abs(X).max() or 1.0) * 50.0)
             case["xint"] = True
+        if kind == "kmeans" and not rows_tail and rng.random() < 0.12:
+            # quantised data on a small integer grid (pixel positions, counts): samples exactly
+            # equidistant from two centroids are common, and every sum is exact
+            d = min(d, rng.randint(1, 2))
+            rs_ = np.random.RandomState(rng.getrandbits(32))
+            X = rs_.randint(-3, 4, size=(n, d)).astype(float)
+            case["grid"] = True
         case["X"] = L(X)
         case["chunks"] = _gen_chunks(rng, n, many=huge)
         if rows_tail:
@@ -121,10 +128,14 @@ def gen_case(rng, tier, kind=None):
         if kind == "kmeans":
             k = min(n, tail(rng, 1, min(8 if big else 4, n), [9, 17, 33], 0.04))
             r = rng.random()
+            if case.get("grid"):
+                r = 0.0
             if r < 0.7:
                 rs = np.random.RandomState(rng.getrandbits(32))
                 idx = rs.choice(n, size=k, replace=False)
                 init = sig6(X[idx] + rs.randn(k, d) * 0.05 * (X.std(axis=0) + 1e-9))
+                if case.get("grid"):
+                    init = rs.randint(-3, 4, size=(k, d)).astype(float)
                 if k > 1 and rng.random() < 0.08:
                     # a centroid far from all data: its cluster stays empty
                     init[-1] = init[-1] + 1e3 * (np.abs(X).max() + 1.0)
@@ -249,6 +260,9 @@ def gen_case(rng, tier, kind=None):
         rng.shuffle(mask)
         case["nan_mask"] = mask
         case["nan_chunks"] = random_composition(rng, len(mask), rng.randint(1, min(len(mask), 8)))
+    if not case.get("nan_mask") and not case.get("fchunks") and rng.random() < 0.06:
+        # the Dask array is assembled from delayed per-block loaders (one delayed object per file)
+        case["from_delayed"] = True
     if not case.get("nan_mask") and rng.random() < 0.08:
         # the Dask array is an unevaluated expression (exactly representable: x/2*2), built
         # from two concatenated pieces, rather than a wrapped in-memory array
@@ -536,6 +550,14 @@ def _dask_X(case, X, reverse=False):
         a = da.from_array(X[:cut] * 0.5, chunks=((cut,), (X.shape[1],)))
         b = da.from_array(X[cut:] * 0.5, chunks=(chunks[1:], (X.shape[1],)))
         return da.concatenate([a, b], axis=0) * 2.0
+    if case.get("from_delayed") and not case.get("fchunks") and not case.get("same_name"):
+        blocks, start = [], 0
+        for c in chunks:
+            blk = np.ascontiguousarray(X[start:start + c])
+            start += c
+            blocks.append(da.from_delayed(dask.delayed(np.array)(blk), shape=blk.shape,
+                                          dtype=blk.dtype))
+        return da.concatenate(blocks, axis=0) if len(blocks) > 1 else blocks[0]
     f = case.get("fchunks")
     kw = {}
     if case.get("same_name"):
@@ -586,6 +608,8 @@ def run_case(case, replay=None):
     rec.probe("unknown_chunk_sizes", bool(case.get("nan_mask")))
     rec.probe("large_offset_features", bool(case.get("large_offset")))
     rec.probe("lazy_expression_input", bool(case.get("lazy_expr")))
+    rec.probe("integer_grid_data_with_exact_ties", bool(case.get("grid")))
+    rec.probe("array_from_delayed_blocks", bool(case.get("from_delayed")))
     rec.probe("refit_through_same_named_array", bool(case.get("same_name")))
     rec.probe("mode_" + case["sched"]["mode"])
     rec.probe("fault_free_configuration", bool(case.get("fault_free")))
@@ -759,6 +783,25 @@ def _least_k(traj, target, s, tol, kind):
     return None
 
 
+def _ties_are_exact(X, c, eps):
+    """On integer grid data all sums are exact, so every path sees bit-identical centroids and
+    each sample-to-centroid distance is a function of that pair alone.  A tie is then decided by
+    rounding only if the candidates' distances are not *exactly* equal under one of the two
+    formulae the code uses (scipy's cdist in memory, the expanded sum for Dask); where they are
+    exactly equal under both, first-index wins on every path and the assignment is determined."""
+    import scipy.spatial.distance as ssd
+    dA = ssd.cdist(c, X, metric="sqeuclidean")
+    dB = np.stack([np.sum((c[i] - X) ** 2, axis=-1) for i in range(c.shape[0])])
+    for dd in (dA, dB):
+        best = dd.min(axis=0)
+        cand = dd <= best + np.maximum(eps, 1e-9 * best)
+        if not (np.where(cand, dd, best[None, :]) == best[None, :]).all():
+            return False
+    candA = dA <= dA.min(axis=0) + np.maximum(eps, 1e-9 * dA.min(axis=0))
+    candB = dB <= dB.min(axis=0) + np.maximum(eps, 1e-9 * dB.min(axis=0))
+    return bool((candA == candB).all())
+
+
 def _preconditions(case, X, s, traj, thr):
     """Discrete decisions that rounding may flip are preconditions, not assertions."""
     kind = case["kind"]
@@ -776,6 +819,8 @@ def _preconditions(case, X, s, traj, thr):
                 continue
             d2 = ((X[None, :, :] - c[:, None, :]) ** 2).sum(-1)
             if d2.shape[0] > 1:
+                if case.get("grid") and _ties_are_exact(X, c, 1e-9 * s * s):
+                    continue
                 ds = np.sort(d2, axis=0)
                 gap = ds[1] - ds[0]
                 if (gap <= 1e-9 * np.maximum(ds[1], 1e-300)).any() or \
